@@ -88,8 +88,11 @@ fn apply(p: &Package, op: &Value) -> Result<Package, String> {
             "sign" => gen_::sign_pkg(&mut q, op["key"].as_str().unwrap(), 1_600_000_000u32)?,
             "clear" => q.clear_signatures()?,
             _ => {
+                // written the way a caller writing into a pipe would: the sink takes a few bytes of each request
                 let mut b = vec![];
-                q.write(&mut Plain(&mut b))?;
+                static TURN: std::sync::atomic::AtomicUsize = std::sync::atomic::AtomicUsize::new(0);
+                let take = [1usize, 7, 512, 4096, 65536][TURN.fetch_add(1, std::sync::atomic::Ordering::Relaxed) % 5];
+                q.write(&mut Short(&mut b, take))?;
                 // re-parse the way a caller reading from a pipe would: through a buffered reader whose buffer is small
                 let cap = [1usize, 3, 8, 16, 37, 64, 256, 8192][b.len() % 8];
                 q = Package::parse(&mut std::io::BufReader::with_capacity(cap, &b[..]))?;
